@@ -202,6 +202,127 @@ theorem groupOf_ev (e : Env) : ∀ (arms : List Arm) (k : Nat) (children : List 
     rw [groupOf, hF.1 indent, hF.2 indent]
     simp [gesFrom]
 
+/-! ## the end offset: `ends_in_line_comment` does not depend on the indentation -/
+
+/-- kind, text and line offset of a written token (everything but the indent level) -/
+def okey (w : WTok) : Nat × List Char × Nat := (w.ty, w.text, w.off)
+
+theorem renderTok_okey {w w' : WTok} (h : okey w = okey w') (h0 : w.ty = 6 ∨ w.off = 0) : renderTok w = renderTok w' := by
+  obtain ⟨t, x, o, i⟩ := w
+  obtain ⟨t', x', o', i'⟩ := w'
+  simp only [okey, Prod.mk.injEq] at h
+  obtain ⟨rfl, rfl, rfl⟩ := h
+  simp only [renderTok]
+  rcases h0 with h0 | h0
+  · simp only at h0; simp [h0]
+  · simp only at h0; subst h0; simp [addWhitespace]
+
+/-- two token streams that differ in the indent levels only: the scanner of `ends_in_line_comment` ends in the same
+    state on their texts (followed by any text, from any state) -/
+theorem lcScan_okey : ∀ (n : Nat) (a b : List WTok), a.length = n → a.map okey = b.map okey →
+    ∀ S s, lcScan s (renderToks a ++ S) = lcScan s (renderToks b ++ S)
+  | 0, a, b, hn, hk, S, s => by
+    have ha : a = [] := List.length_eq_zero_iff.1 hn
+    subst ha
+    have hb : b = [] := by simpa using hk.symm
+    subst hb; rfl
+  | n + 1, a, b, hn, hk, S, s => by
+    rcases List.eq_nil_or_concat a with rfl | ⟨a', w, rfl⟩
+    · simp at hn
+    · rw [List.concat_eq_append] at hn hk ⊢
+      rw [List.map_append] at hk
+      obtain ⟨b', bw, rfl, hk1, hk2⟩ := List.map_eq_append_iff.1 hk.symm
+      obtain ⟨w', rfl, hw⟩ : ∃ w', bw = [w'] ∧ okey w' = okey w := by
+        cases bw with
+        | nil => simp at hk2
+        | cons w' bw =>
+          cases bw with
+          | nil => exact ⟨w', rfl, by simpa using hk2⟩
+          | cons _ _ => simp at hk2
+      have hlen : a'.length = n := by simpa using hn
+      have ih := lcScan_okey n a' b' hlen hk1.symm
+      simp only [renderToks_append, List.append_assoc]
+      by_cases h0 : w.ty = 6 ∨ w.off = 0
+      · have : renderToks [w'] = renderToks [w] := by
+          simp only [renderToks, List.flatMap_cons, List.flatMap_nil, List.append_nil]
+          exact (renderTok_okey hw.symm h0).symm
+        rw [this]; exact ih _ s
+      · have hty : w.ty ≠ 6 := fun h => h0 (Or.inl h)
+        have hoff : w.off ≠ 0 := fun h => h0 (Or.inr h)
+        have hk' := hw
+        simp only [okey, Prod.mk.injEq] at hk'
+        have hty' : w'.ty ≠ 6 := by rw [hk'.1]; exact hty
+        rw [ih _ s]
+        simp only [renderToks, List.flatMap_cons, List.flatMap_nil, List.append_nil, renderTok, if_neg hty, if_neg hty',
+          List.append_assoc]
+        rw [hk'.2.1, hk'.2.2]
+        exact lcScan_ws_indent _ _ _ _ _ hoff s
+
+theorem endsInLineComment_okey (a b : List WTok) (h : a.map okey = b.map okey) (S : List Char) :
+    endsInLineComment (renderToks a ++ S) = endsInLineComment (renderToks b ++ S) := by
+  unfold endsInLineComment
+  rw [lcScan_okey _ a b rfl h S]
+
+theorem scalarToks_okey (i j : Nat) (v : Val) : (scalarToks i v).map okey = (scalarToks j v).map okey := by
+  cases v <;> rfl
+
+theorem flatMap_okey {α} (f g : α → List WTok) (h : ∀ x, (f x).map okey = (g x).map okey) :
+    ∀ (l : List α), (l.flatMap f).map okey = (l.flatMap g).map okey
+  | [] => rfl
+  | x :: l => by simp only [List.flatMap_cons, List.map_append, h x, flatMap_okey f g h l]
+
+theorem elemToks_okey (i j : Nat) (v : Val) : (elemToks i v).map okey = (elemToks j v).map okey := by
+  cases v with
+  | block ty info fields ch cm => exact flatMap_okey _ _ (scalarToks_okey i j) fields
+  | ident s o => rfl
+  | str s o => rfl
+  | int a b o w => rfl
+  | dbl s o => rfl
+  | enum s o => rfl
+  | arr vs => rfl
+  | seq vs => rfl
+
+theorem fieldToks_okey (i j : Nat) (v : Val) : (fieldToks i v).map okey = (fieldToks j v).map okey := by
+  cases v with
+  | arr vs => exact flatMap_okey _ _ (elemToks_okey i j) vs
+  | seq vs => exact flatMap_okey _ _ (elemToks_okey i j) vs
+  | block ty info fields ch cm => exact elemToks_okey i j (.block ty info fields ch cm)
+  | ident s o => rfl
+  | str s o => rfl
+  | int a b o w => rfl
+  | dbl s o => rfl
+  | enum s o => rfl
+
+theorem fieldsToks_okey (i j : Nat) (fs : List Val) : (fieldsToks i fs).map okey = (fieldsToks j fs).map okey :=
+  flatMap_okey _ _ (fieldToks_okey i j) fs
+
+mutual
+theorem toks_okey : ∀ (o : OT) (i j : Nat), (o.toks i).map okey = (o.toks j).map okey
+  | .cmt _ _, _, _ => rfl
+  | .node _ tag blk _ so eo fields items, i, j => by
+    simp only [OT.toks, List.map_append, fieldsToks_okey (i + 1) (j + 1) fields, toksL_okey items (i + 1) (j + 1)]
+    cases blk <;> rfl
+theorem toksL_okey : ∀ (xs : List OT) (i j : Nat), (OT.toksL i xs).map okey = (OT.toksL j xs).map okey
+  | [], _, _ => rfl
+  | x :: xs, i, j => by
+    simp only [OT.toksL, List.map_append, toks_okey x i j, toksL_okey xs i j]
+end
+
+/-- **the indentation does not matter**: what `ends_in_line_comment` says of the text of a block's content, written at
+    any indent level, is `OT.endsLC` -/
+theorem endsInLineComment_body (i : Nat) (fields : List Val) (items : List OT) :
+    endsInLineComment (renderToks (fieldsToks i fields ++ OT.toksL i items)) = OT.endsLC fields items := by
+  have := endsInLineComment_okey (fieldsToks i fields ++ OT.toksL i items) (fieldsToks 0 fields ++ OT.toksL 0 items)
+    (by rw [List.map_append, List.map_append, fieldsToks_okey i 0, toksL_okey items i 0]) []
+  simpa [OT.endsLC] using this
+
+/-- the end offset the writer computes from the text is the one of the bumped tree -/
+theorem endOffOf_body (i : Nat) (eo : Nat) (fields : List Val) (items : List OT) :
+    endOffOf eo (renderToks (fieldsToks i fields ++ OT.toksL i items)) = OT.fixEo true eo fields items := by
+  unfold endOffOf OT.fixEo
+  rw [endsInLineComment_body]
+  simp
+
 /-- the loop of `add_group` over the entries `gs` writes the token stream of their items with bumped offsets -/
 theorem addGroupGo_toTag (code : List CodeEntry) (indent : Nat) : ∀ (alc : Bool) (gs : List GE),
     addGroupGo indent alc (gs.map (GE.toTag code (OT.bodyText indent))) =
@@ -219,6 +340,7 @@ theorem addGroupGo_toTag (code : List CodeEntry) (indent : Nat) : ∀ (alc : Boo
     · have hb : "/begin ".toList = beginText ++ addWhitespace indent 0 := by simp [beginText, addWhitespace]
       have he : "/end ".toList = endText ++ addWhitespace indent 0 := by simp [endText, addWhitespace]
       simp only [if_true, hb, he, headToks, closeToks]
+      rw [← renderToks_append, endOffOf_body (indent + 1), renderToks_append]
       simp [renderToks, renderTok]
 
 theorem cmts_eq (code : List CodeEntry) (indent : Nat) (comments : List Cmt) (hcm : ∀ cm ∈ comments, cm.included = false) :
@@ -258,6 +380,13 @@ theorem bumpOff_idem (alc : Bool) (n : Nat) : bumpOff alc (bumpOff alc n) = bump
   · simp [h]
   · rw [if_neg h, if_neg h]
 
+theorem fixEo_idem (blk : Bool) (eo : Nat) (fields : List Val) (items : List OT) :
+    OT.fixEo blk (OT.fixEo blk eo fields items) fields items = OT.fixEo blk eo fields items := by
+  unfold OT.fixEo
+  by_cases h : blk = true ∧ eo = 0 ∧ OT.endsLC fields items = true
+  · simp [h]
+  · rw [if_neg h, if_neg h]
+
 mutual
 theorem fix_idem_node : ∀ (o : OT), OT.fixL false (OT.fixL false o.itemsOf) = OT.fixL false o.itemsOf
   | .node _ _ _ _ _ _ _ items => fixL_idem items false
@@ -270,7 +399,7 @@ theorem fixL_idem : ∀ (l : List OT) (alc : Bool), OT.fixL alc (OT.fixL alc l) 
   | .node arm tag blk ty so eo fields items :: rest, alc => by
     have h1 := fix_idem_node (.node arm tag blk ty so eo fields items)
     simp only [OT.itemsOf] at h1
-    simp only [OT.fixL, bumpOff_idem, fixL_idem rest, h1]
+    simp only [OT.fixL, bumpOff_idem, fixL_idem rest, h1, fixEo_idem]
 end
 
 end A2l.Tree
